@@ -448,6 +448,23 @@ pub fn generate(tier: Tier, rng: &mut Rng) -> Vec<Case> {
             push_case(&mut out, &rspec, src.to_string(), Some(want), vec!["variable-read-by-host-function", "no-model"]);
         }
     }
+    // several macro programs executed one after the other against the same context: each computes
+    // its own fold, whatever ran before (ranges of the same shape, literal and not)
+    for srcs in [
+        vec!["[1, 2, 3].map(x, x * 2)", "[5, 6].map(x, x * 2)", "[7].map(x, x * 2)"],
+        vec!["[1, 2, 3].filter(x, x > 1)", "[9, 0].filter(x, x > 1)", "[].filter(x, x > 1)"],
+        vec!["{1: 2}.map(e, e)", "{3: 4}.map(e, e)"],
+        vec!["[1, 2].all(x, x > 0)", "[0, 2].all(x, x > 0)", "[1, 2].all(x, x > 0)"],
+        vec!["[1, 2].exists_one(x, x == 2)", "[2, 2].exists_one(x, x == 2)"],
+        vec!["[[1], [2]].map(l, l.map(x, x + 1))", "[[3], [4]].map(l, l.map(x, x + 1))"],
+        vec!["[x, y].map(v, v)", "[y, x].map(v, v)"],
+    ] {
+        let srcs: Vec<String> = srcs.iter().map(|s| s.to_string()).collect();
+        if let Some(mut c) = crate::run::history_case(&spec, &srcs) {
+            c.tags = vec!["same-context-histories"];
+            out.push(c);
+        }
+    }
     // exists_one over ranges with several matches followed by further elements, some of which fail
     // or are logged: every element is visited, whatever the count so far
     for l in ["[1, 2, 3, 4, 0, 5]", "[2, 2, 2, 0]", "[5, 6, 7, 8, 9]", "[0, 3, 3, 0, 3]", "{1: 0, 2: 0, 3: 0}", "[1, 2, 3, 4, 5, 6, 7, 8]"] {
